@@ -329,7 +329,8 @@ Proof.
   intros H. pose proof (names_fine_of _ H) as Hn.
   assert (G7 : inky t_cpp = true) by (vm_compute; reflexivity).
   pose proof (names_wf16 _ t_cpp Hn items_ok_cpp G7) as W.
-  destruct (shipped_output lines_cpp l0_cpp t_cpp shipped_cpp m a W) as [O T].
+  assert (NU : no_user_lines t_cpp = true) by (vm_compute; reflexivity).
+  destruct (shipped_output lines_cpp l0_cpp t_cpp shipped_cpp m a NU W) as [O T].
   split; [exact O|]. split; [exact T|exact (wf_fresh_cpp _ H)].
 Qed.
 
